@@ -4,11 +4,14 @@ not vacuous), and the FPU on which the known findings are exhibited (Findings/C0
 
 It is a *toy* FPU, not IEEE-754: a datum of 32 / 64 / 80 bits is  sign | 6-bit shift s | q  and denotes
 (−1)^sign · q · 2^s  (25 / 57 / 73 bits of q: enough for every integer of at most 65 bits rounded to 24 / 53 / 64
-significant bits).  There are no NaNs or infinities; the arithmetic operations, whose results no contract constrains,
-return their first operand (except `addsd x, x`, which doubles exactly: the hypothesis of `C02_u64f64`).  All contracts hold (proved below); the real x87/SSE unit is validated against the same
+significant bits).  There are no NaNs or infinities.  The two patterns the repaired fp → unsigned long cells materialise
+(binary32 0x5f000000, binary64 0x43e0000000000000) are given the value the contract names (2^63) by a special case of
+`val32`/`val64`; no other operation produces them.  The arithmetic operations return their first operand except where a
+contract constrains them: `x + x` doubles exactly, `x − 2^63` is exact for 2^63 ≤ x < 2^64, `fadd` of the constant 2^64
+to an integer datum is exact.  All contracts hold (proved below); the real x87/SSE unit is validated against the same
 contracts by checklib/C02.py on every run.
 -/
-import ChibiVerif.Spec.FpuSpec
+import ChibiVerif.Lemmas.FpRoundLemmas
 
 namespace ChibiVerif.Spec.Fpu.Toy
 
@@ -57,10 +60,20 @@ def enc (qb : Nat) (neg : Bool) (q s : Nat) : Nat := (if neg then 2 ^ (qb + 6) e
 /-- re-encode a datum with a wider q field -/
 def widen (qb qb' : Nat) (b : Nat) : Nat := enc qb' (b / 2 ^ (qb + 6) % 2 = 1) (b % 2 ^ qb) (b / 2 ^ qb % 64)
 
-/-- the integer `v` rounded to `p` significant bits, encoded (only the sign when |v| > 2^64) -/
+/-- the integer `v` rounded to `p` significant bits, encoded (only the sign when |v| > 2^64).  The code is computed from the
+    *rounded* magnitude, so that it is a function of the sign and of `roundNat p |v|` (contracts `ofInt*_congr`). -/
 def ofIntNat (qb p : Nat) (v : Int) : Nat :=
-  if v.natAbs ≤ 2 ^ 64 then enc qb (decide (v < 0)) (roundQS p v.natAbs).1 (roundQS p v.natAbs).2
+  if v.natAbs ≤ 2 ^ 64 then
+    enc qb (decide (v < 0)) (roundQS p (roundNat p v.natAbs)).1 (roundQS p (roundNat p v.natAbs)).2
   else enc qb (decide (v < 0)) 0 0
+
+theorem roundInt_eq' (p : Nat) (v : Int) (hp : 1 ≤ p) :
+    roundInt p v = (if decide (v < 0) = true
+        then -(((roundQS p (roundNat p v.natAbs)).1 * 2 ^ (roundQS p (roundNat p v.natAbs)).2 : Nat) : Int)
+        else (((roundQS p (roundNat p v.natAbs)).1 * 2 ^ (roundQS p (roundNat p v.natAbs)).2 : Nat) : Int)) := by
+  have := roundNat_idem p v.natAbs hp
+  simp only [roundNat] at this
+  simp [roundInt, roundNat, this]
 
 theorem toInt_fin (neg : Bool) (q s : Nat) :
     (Val.fin neg q (s : Int)).toInt? = some (if neg then -((q * 2 ^ s : Nat) : Int) else ((q * 2 ^ s : Nat) : Int)) := by
@@ -70,6 +83,65 @@ theorem roundInt_eq (p : Nat) (v : Int) :
     roundInt p v = (if decide (v < 0) = true then -(((roundQS p v.natAbs).1 * 2 ^ (roundQS p v.natAbs).2 : Nat) : Int)
                     else (((roundQS p v.natAbs).1 * 2 ^ (roundQS p v.natAbs).2 : Nat) : Int)) := by
   simp [roundInt, roundNat]
+
+/-! ### the pieces of the special cases -/
+
+theorem trunc_of_toInt (v : Val) (i : Int) (h : v.toInt? = some i) : v.trunc? = some i := by
+  cases v with
+  | nan => simp [Val.toInt?] at h
+  | inf n => simp [Val.toInt?] at h
+  | fin n m e =>
+    simp only [Val.toInt?] at h
+    split at h
+    · simpa [Val.trunc?] using h
+    · simp at h
+
+/-- an integer of at most `p` bits is its own rounding -/
+theorem roundInt_small (p : Nat) (v : Int) (h : v.natAbs < 2 ^ p) : roundInt p v = v := by
+  have hb : bitLen v.natAbs ≤ p := by
+    unfold bitLen
+    split
+    · omega
+    · rename_i h0
+      have := (Nat.log2_lt h0).2 h
+      omega
+  have e : roundNat p v.natAbs = v.natAbs := by simp [roundNat, roundQS, hb]
+  simp only [roundInt, e]
+  split <;> omega
+
+/-- fields of a datum whose integer part lies in [2^63, 2^64): it is positive, and q·2^s − 2^63 = (q − 2^(63−s))·2^s -/
+theorem dec_sub63 (qb b : Nat) (t : Int) (ht : (dec qb b).trunc? = some t)
+    (h1 : 9223372036854775808 ≤ t) (h2 : t < 18446744073709551616) :
+    (b / 2 ^ (qb + 6) % 2 = 1) = False ∧
+    (((b % 2 ^ qb - 2 ^ (63 - b / 2 ^ qb % 64)) * 2 ^ (b / 2 ^ qb % 64) : Nat) : Int) = t - 9223372036854775808 ∧
+    (b / 2 ^ qb % 64 = 47 → b % 2 ^ qb - 2 ^ (63 - b / 2 ^ qb % 64) < 2 ^ 17) := by
+  simp only [dec, Val.trunc?, Val.magTrunc, Option.some.injEq] at ht
+  have hs : b / 2 ^ qb % 64 < 64 := Nat.mod_lt _ (by decide)
+  generalize b / 2 ^ qb % 64 = s at *
+  generalize b % 2 ^ qb = q at *
+  have h0 : (0:Int) ≤ (s:Int) := by omega
+  rw [if_pos h0, Int.toNat_natCast] at ht
+  have hneg : ¬ (b / 2 ^ (qb + 6) % 2 = 1) := by
+    intro hn
+    simp only [hn, decide_true, if_true] at ht
+    have : (0:Int) ≤ ((q * 2 ^ s : Nat) : Int) := Int.natCast_nonneg _
+    omega
+  simp only [hneg, decide_false, Bool.false_eq_true, if_false] at ht
+  have hpow : 2 ^ (63 - s) * 2 ^ s = 2 ^ 63 := by
+    rw [← Nat.pow_add]; congr 1; omega
+  have hqs : 2 ^ 63 ≤ q * 2 ^ s ∧ q * 2 ^ s < 2 ^ 64 := by omega
+  have hle : 2 ^ (63 - s) ≤ q := by
+    have hp : 0 < 2 ^ s := Nat.two_pow_pos s
+    rw [← hpow] at hqs
+    exact Nat.le_of_mul_le_mul_right hqs.1 hp
+  refine ⟨by simpa using hneg, ?_, ?_⟩
+  · rw [Nat.sub_mul, hpow]
+    have : 2 ^ 63 ≤ q * 2 ^ s := hqs.1
+    omega
+  · intro h47
+    subst h47
+    have : q * 2 ^ 47 < 2 ^ 64 := hqs.2
+    omega
 
 /-! ### the 32-bit format: q has 25 bits, integers are rounded to 24 significant bits -/
 
@@ -86,29 +158,88 @@ theorem enc_msb32 (neg : Bool) (q s : Nat) (hq : q < 2 ^ 25) (hs : s < 64) : (Bi
   simp only [BitVec.msb_eq_decide, BitVec.toNat_ofNat, enc] at *
   cases neg <;> simp <;> omega
 
-def val32 (b : BitVec 32) : Val := dec 25 b.toNat
+/-- the binary32 pattern of 2^63 -/
+def C32 : BitVec 32 := 0x5f000000#32
+
+def val32 (b : BitVec 32) : Val := if b = C32 then .fin false 8388608 40 else dec 25 b.toNat
 def ofInt32 (v : Int) : BitVec 32 := BitVec.ofNat 32 (ofIntNat 25 24 v)
 
+/-- every code with a shift field other than 47, or a q field other than 2^24, is read by `dec` -/
+theorem val32_mk (neg : Bool) (q s : Nat) (hq : q < 2 ^ 25) (hs : s < 64) (hne : s = 47 → q ≠ 16777216) :
+    val32 (BitVec.ofNat 32 (enc 25 neg q s)) = .fin neg q s := by
+  have hlt := enc_lt32 neg q s hq hs
+  have hd := dec_enc32 neg q s hq hs
+  have hnc : BitVec.ofNat 32 (enc 25 neg q s) ≠ C32 := by
+    intro h
+    have h' := congrArg BitVec.toNat h
+    simp only [BitVec.toNat_ofNat, Nat.mod_eq_of_lt hlt] at h'
+    rw [h'] at hd
+    have hc : dec 25 C32.toNat = .fin false 16777216 47 := by decide
+    rw [hc] at hd
+    simp only [Val.fin.injEq] at hd
+    obtain ⟨_, h2, h3⟩ := hd
+    exact hne (by omega) h2.symm
+  simp only [val32, hnc, if_false, BitVec.toNat_ofNat, Nat.mod_eq_of_lt hlt, hd]
+
 theorem ofInt32_val (v : Int) (hv : v.natAbs ≤ 2 ^ 64) : (val32 (ofInt32 v)).toInt? = some (roundInt 24 v) := by
-  obtain ⟨hq, hs⟩ := roundQS_bounds 24 v.natAbs (by decide) hv
-  have hq' : (roundQS 24 v.natAbs).1 < 2 ^ 25 := by
+  have hm := roundNat_le64 24 v.natAbs (by decide) (by decide) hv
+  obtain ⟨hq, hs⟩ := roundQS_bounds 24 (roundNat 24 v.natAbs) (by decide) hm
+  have hq' : (roundQS 24 (roundNat 24 v.natAbs)).1 < 2 ^ 25 := by
     have : (2:Nat) ^ 24 < 2 ^ 25 := by decide
     omega
-  have hs' : (roundQS 24 v.natAbs).2 < 64 := by omega
-  have hlt := enc_lt32 (decide (v < 0)) _ _ hq' hs'
-  simp only [val32, ofInt32, ofIntNat, hv, if_true, BitVec.toNat_ofNat, Nat.mod_eq_of_lt hlt]
-  rw [dec_enc32 _ _ _ hq' hs', toInt_fin, roundInt_eq]
+  have hs' : (roundQS 24 (roundNat 24 v.natAbs)).2 < 64 := by omega
+  simp only [ofInt32, ofIntNat, hv, if_true]
+  rw [val32_mk _ _ _ hq' hs' (by omega), toInt_fin, roundInt_eq' 24 v (by decide)]
 
 theorem ofInt32_sign (v : Int) : (ofInt32 v).msb = decide (v < 0) := by
   simp only [ofInt32, ofIntNat]
   split
   · rename_i hv
-    obtain ⟨hq, hs⟩ := roundQS_bounds 24 v.natAbs (by decide) hv
-    have hq' : (roundQS 24 v.natAbs).1 < 2 ^ 25 := by
+    have hm := roundNat_le64 24 v.natAbs (by decide) (by decide) hv
+    obtain ⟨hq, hs⟩ := roundQS_bounds 24 (roundNat 24 v.natAbs) (by decide) hm
+    have hq' : (roundQS 24 (roundNat 24 v.natAbs)).1 < 2 ^ 25 := by
       have : (2:Nat) ^ 24 < 2 ^ 25 := by decide
       omega
     exact enc_msb32 _ _ _ hq' (by omega)
   · exact enc_msb32 _ _ _ (by decide) (by decide)
+
+theorem ofInt32_congr (a b : Int) (ha : a.natAbs ≤ 2 ^ 64) (hb : b.natAbs ≤ 2 ^ 64) (hs : a < 0 ↔ b < 0)
+    (h : roundInt 24 a = roundInt 24 b) : ofInt32 a = ofInt32 b := by
+  have hn : roundNat 24 a.natAbs = roundNat 24 b.natAbs := by
+    simp only [roundInt] at h
+    by_cases h0 : a < 0
+    · have h1 : b < 0 := hs.1 h0
+      simp only [h0, h1, if_true] at h; omega
+    · have h1 : ¬ b < 0 := fun x => h0 (hs.2 x)
+      simp only [h0, h1, if_false] at h; omega
+  have hd : decide (a < 0) = decide (b < 0) := by simp [hs]
+  simp only [ofInt32, ofIntNat, ha, hb, if_true, hn, hd]
+
+/-- `x − 2^63` on the fields -/
+def sub63_32 (a : BitVec 32) : BitVec 32 :=
+  if a = C32 then 0#32
+  else BitVec.ofNat 32 (enc 25 false (a.toNat % 2 ^ 25 - 2 ^ (63 - a.toNat / 2 ^ 25 % 64)) (a.toNat / 2 ^ 25 % 64))
+
+theorem sub63_32_spec (a : BitVec 32) (t : Int) (ht : (val32 a).trunc? = some t)
+    (h1 : 9223372036854775808 ≤ t) (h2 : t < 18446744073709551616) :
+    (val32 (sub63_32 a)).trunc? = some (t - 9223372036854775808) := by
+  by_cases hc : a = C32
+  · subst hc
+    have : t = 9223372036854775808 := by
+      have : (val32 C32).trunc? = some 9223372036854775808 := by decide
+      rw [this] at ht; exact (Option.some.inj ht).symm
+    subst this
+    decide
+  · simp only [val32, hc, if_false] at ht
+    obtain ⟨_, hval, h47⟩ := dec_sub63 25 a.toNat t ht h1 h2
+    have hs : a.toNat / 2 ^ 25 % 64 < 64 := Nat.mod_lt _ (by decide)
+    have hq : a.toNat % 2 ^ 25 - 2 ^ (63 - a.toNat / 2 ^ 25 % 64) < 2 ^ 25 :=
+      Nat.lt_of_le_of_lt (Nat.sub_le _ _) (Nat.mod_lt _ (by decide))
+    simp only [sub63_32, hc, if_false]
+    rw [val32_mk _ _ _ hq hs (fun h => by have := h47 h; omega)]
+    simp only [Val.trunc?, Val.magTrunc, Bool.false_eq_true, if_false]
+    have h0 : (0:Int) ≤ ((a.toNat / 2 ^ 25 % 64 : Nat) : Int) := Int.natCast_nonneg _
+    rw [if_pos h0, Int.toNat_natCast, hval]
 
 /-! ### the 64-bit format: q has 57 bits, integers are rounded to 53 significant bits -/
 
@@ -125,29 +256,103 @@ theorem enc_msb64 (neg : Bool) (q s : Nat) (hq : q < 2 ^ 57) (hs : s < 64) : (Bi
   simp only [BitVec.msb_eq_decide, BitVec.toNat_ofNat, enc] at *
   cases neg <;> simp <;> omega
 
-def val64 (b : BitVec 64) : Val := dec 57 b.toNat
+/-- the binary64 pattern of 2^63 -/
+def C64 : BitVec 64 := 0x43e0000000000000#64
+
+def val64 (b : BitVec 64) : Val := if b = C64 then .fin false 4503599627370496 11 else dec 57 b.toNat
 def ofInt64 (v : Int) : BitVec 64 := BitVec.ofNat 64 (ofIntNat 57 53 v)
 
+/-- every code whose q field is not that of `C64` (15·2^53) is read by `dec` -/
+theorem val64_mk (neg : Bool) (q s : Nat) (hq : q < 2 ^ 57) (hs : s < 64) (hne : q ≠ 135107988821114880) :
+    val64 (BitVec.ofNat 64 (enc 57 neg q s)) = .fin neg q s := by
+  have hlt := enc_lt64 neg q s hq hs
+  have hd := dec_enc64 neg q s hq hs
+  have hnc : BitVec.ofNat 64 (enc 57 neg q s) ≠ C64 := by
+    intro h
+    have h' := congrArg BitVec.toNat h
+    simp only [BitVec.toNat_ofNat, Nat.mod_eq_of_lt hlt] at h'
+    rw [h'] at hd
+    have hc : dec 57 C64.toNat = .fin false 135107988821114880 33 := by decide
+    rw [hc] at hd
+    simp only [Val.fin.injEq] at hd
+    exact hne hd.2.1.symm
+  simp only [val64, hnc, if_false, BitVec.toNat_ofNat, Nat.mod_eq_of_lt hlt, hd]
+
 theorem ofInt64_val (v : Int) (hv : v.natAbs ≤ 2 ^ 64) : (val64 (ofInt64 v)).toInt? = some (roundInt 53 v) := by
-  obtain ⟨hq, hs⟩ := roundQS_bounds 53 v.natAbs (by decide) hv
-  have hq' : (roundQS 53 v.natAbs).1 < 2 ^ 57 := by
+  have hm := roundNat_le64 53 v.natAbs (by decide) (by decide) hv
+  obtain ⟨hq, hs⟩ := roundQS_bounds 53 (roundNat 53 v.natAbs) (by decide) hm
+  have hq' : (roundQS 53 (roundNat 53 v.natAbs)).1 < 2 ^ 57 := by
     have : (2:Nat) ^ 53 < 2 ^ 57 := by decide
     omega
-  have hs' : (roundQS 53 v.natAbs).2 < 64 := by omega
-  have hlt := enc_lt64 (decide (v < 0)) _ _ hq' hs'
-  simp only [val64, ofInt64, ofIntNat, hv, if_true, BitVec.toNat_ofNat, Nat.mod_eq_of_lt hlt]
-  rw [dec_enc64 _ _ _ hq' hs', toInt_fin, roundInt_eq]
+  have hs' : (roundQS 53 (roundNat 53 v.natAbs)).2 < 64 := by omega
+  simp only [ofInt64, ofIntNat, hv, if_true]
+  rw [val64_mk _ _ _ hq' hs' (by omega), toInt_fin, roundInt_eq' 53 v (by decide)]
 
 theorem ofInt64_sign (v : Int) : (ofInt64 v).msb = decide (v < 0) := by
   simp only [ofInt64, ofIntNat]
   split
   · rename_i hv
-    obtain ⟨hq, hs⟩ := roundQS_bounds 53 v.natAbs (by decide) hv
-    have hq' : (roundQS 53 v.natAbs).1 < 2 ^ 57 := by
+    have hm := roundNat_le64 53 v.natAbs (by decide) (by decide) hv
+    obtain ⟨hq, hs⟩ := roundQS_bounds 53 (roundNat 53 v.natAbs) (by decide) hm
+    have hq' : (roundQS 53 (roundNat 53 v.natAbs)).1 < 2 ^ 57 := by
       have : (2:Nat) ^ 53 < 2 ^ 57 := by decide
       omega
     exact enc_msb64 _ _ _ hq' (by omega)
   · exact enc_msb64 _ _ _ (by decide) (by decide)
+
+theorem ofInt64_congr (a b : Int) (ha : a.natAbs ≤ 2 ^ 64) (hb : b.natAbs ≤ 2 ^ 64) (hs : a < 0 ↔ b < 0)
+    (h : roundInt 53 a = roundInt 53 b) : ofInt64 a = ofInt64 b := by
+  have hn : roundNat 53 a.natAbs = roundNat 53 b.natAbs := by
+    simp only [roundInt] at h
+    by_cases h0 : a < 0
+    · have h1 : b < 0 := hs.1 h0
+      simp only [h0, h1, if_true] at h; omega
+    · have h1 : ¬ b < 0 := fun x => h0 (hs.2 x)
+      simp only [h0, h1, if_false] at h; omega
+  have hd : decide (a < 0) = decide (b < 0) := by simp [hs]
+  simp only [ofInt64, ofIntNat, ha, hb, if_true, hn, hd]
+
+def sub63_64 (a : BitVec 64) : BitVec 64 :=
+  if a = C64 then 0#64
+  else BitVec.ofNat 64 (enc 57 false (a.toNat % 2 ^ 57 - 2 ^ (63 - a.toNat / 2 ^ 57 % 64)) (a.toNat / 2 ^ 57 % 64))
+
+theorem sub63_64_spec (a : BitVec 64) (t : Int) (ht : (val64 a).trunc? = some t)
+    (h1 : 9223372036854775808 ≤ t) (h2 : t < 18446744073709551616) :
+    (val64 (sub63_64 a)).trunc? = some (t - 9223372036854775808) := by
+  by_cases hc : a = C64
+  · subst hc
+    have : t = 9223372036854775808 := by
+      have : (val64 C64).trunc? = some 9223372036854775808 := by decide
+      rw [this] at ht; exact (Option.some.inj ht).symm
+    subst this
+    decide
+  · simp only [val64, hc, if_false] at ht
+    obtain ⟨_, hval, _⟩ := dec_sub63 57 a.toNat t ht h1 h2
+    have hs : a.toNat / 2 ^ 57 % 64 < 64 := Nat.mod_lt _ (by decide)
+    have hqlt : a.toNat % 2 ^ 57 < 2 ^ 57 := Nat.mod_lt _ (by decide)
+    have hq : a.toNat % 2 ^ 57 - 2 ^ (63 - a.toNat / 2 ^ 57 % 64) < 2 ^ 57 :=
+      Nat.lt_of_le_of_lt (Nat.sub_le _ _) hqlt
+    -- the result's q field is below 2^57 − 1 ≥ … and differs from 15·2^53: the value (q−2^(63−s))·2^s is below 2^63
+    have hne : a.toNat % 2 ^ 57 - 2 ^ (63 - a.toNat / 2 ^ 57 % 64) ≠ 135107988821114880 := by
+      intro he
+      rw [he] at hval
+      have hp : 1 ≤ 2 ^ (a.toNat / 2 ^ 57 % 64) := Nat.one_le_two_pow
+      have : (135107988821114880 * 2 ^ (a.toNat / 2 ^ 57 % 64) : Nat) ≥ 135107988821114880 := Nat.le_mul_of_pos_right _ hp
+      -- 15·2^53 ≥ 2^56 would need the minuend ≥ 2^56 + 2^(63−s); with s ≥ 7 … simply: minuend < 2^57 so s ≥ 7, product ≥ 15·2^60 > 2^63
+      have hs7 : 7 ≤ a.toNat / 2 ^ 57 % 64 := by
+        by_cases h7 : 7 ≤ a.toNat / 2 ^ 57 % 64
+        · exact h7
+        · exfalso
+          have : 2 ^ 57 ≤ 2 ^ (63 - a.toNat / 2 ^ 57 % 64) := Nat.pow_le_pow_right (by omega) (by omega)
+          omega
+      have : 2 ^ 7 ≤ 2 ^ (a.toNat / 2 ^ 57 % 64) := Nat.pow_le_pow_right (by omega) hs7
+      have : 135107988821114880 * 2 ^ 7 ≤ 135107988821114880 * 2 ^ (a.toNat / 2 ^ 57 % 64) := Nat.mul_le_mul_left _ this
+      omega
+    simp only [sub63_64, hc, if_false]
+    rw [val64_mk _ _ _ hq hs hne]
+    simp only [Val.trunc?, Val.magTrunc, Bool.false_eq_true, if_false]
+    have h0 : (0:Int) ≤ ((a.toNat / 2 ^ 57 % 64 : Nat) : Int) := Int.natCast_nonneg _
+    rw [if_pos h0, Int.toNat_natCast, hval]
 
 /-! ### the 80-bit format: q has 73 bits, integers are rounded to 64 significant bits -/
 
@@ -168,94 +373,193 @@ def val80 (b : BitVec 80) : Val := dec 73 b.toNat
 def ofInt80 (v : Int) : BitVec 80 := BitVec.ofNat 80 (ofIntNat 73 64 v)
 
 theorem ofInt80_val (v : Int) (hv : v.natAbs ≤ 2 ^ 64) : (val80 (ofInt80 v)).toInt? = some (roundInt 64 v) := by
-  obtain ⟨hq, hs⟩ := roundQS_bounds 64 v.natAbs (by decide) hv
-  have hq' : (roundQS 64 v.natAbs).1 < 2 ^ 73 := by
+  have hm := roundNat_le64 64 v.natAbs (by decide) (by decide) hv
+  obtain ⟨hq, hs⟩ := roundQS_bounds 64 (roundNat 64 v.natAbs) (by decide) hm
+  have hq' : (roundQS 64 (roundNat 64 v.natAbs)).1 < 2 ^ 73 := by
     have : (2:Nat) ^ 64 < 2 ^ 73 := by decide
     omega
-  have hs' : (roundQS 64 v.natAbs).2 < 64 := by omega
+  have hs' : (roundQS 64 (roundNat 64 v.natAbs)).2 < 64 := by omega
   have hlt := enc_lt80 (decide (v < 0)) _ _ hq' hs'
   simp only [val80, ofInt80, ofIntNat, hv, if_true, BitVec.toNat_ofNat, Nat.mod_eq_of_lt hlt]
-  rw [dec_enc80 _ _ _ hq' hs', toInt_fin, roundInt_eq]
+  rw [dec_enc80 _ _ _ hq' hs', toInt_fin, roundInt_eq' 64 v (by decide)]
 
 theorem ofInt80_sign (v : Int) : (ofInt80 v).msb = decide (v < 0) := by
   simp only [ofInt80, ofIntNat]
   split
   · rename_i hv
-    obtain ⟨hq, hs⟩ := roundQS_bounds 64 v.natAbs (by decide) hv
-    have hq' : (roundQS 64 v.natAbs).1 < 2 ^ 73 := by
+    have hm := roundNat_le64 64 v.natAbs (by decide) (by decide) hv
+    obtain ⟨hq, hs⟩ := roundQS_bounds 64 (roundNat 64 v.natAbs) (by decide) hm
+    have hq' : (roundQS 64 (roundNat 64 v.natAbs)).1 < 2 ^ 73 := by
       have : (2:Nat) ^ 64 < 2 ^ 73 := by decide
       omega
     exact enc_msb80 _ _ _ hq' (by omega)
   · exact enc_msb80 _ _ _ (by decide) (by decide)
 
-/-! ### widening re-encodes exactly -/
+/-- the extended datum of 2^63 that `flds` of `C32` pushes -/
+def T80 : BitVec 80 := BitVec.ofNat 80 (enc 73 false 9223372036854775808 0)
 
-theorem widen_32_64 (b : BitVec 32) : Val.same (val64 (BitVec.ofNat 64 (widen 25 57 b.toNat))) (val32 b) = true := by
-  have hq : b.toNat % 2 ^ 25 < 2 ^ 57 := by omega
-  have hs : b.toNat / 2 ^ 25 % 64 < 64 := by omega
-  have hlt := enc_lt64 (b.toNat / 2 ^ (25 + 6) % 2 = 1) _ _ hq hs
-  simp only [val64, val32, widen, BitVec.toNat_ofNat, Nat.mod_eq_of_lt hlt]
-  rw [dec_enc64 _ _ _ hq hs]
-  exact same_refl_fin _ _ _
+/-! ### widening re-encodes exactly (the two special patterns go to the special pattern / the extended 2^63) -/
 
-theorem widen_32_80 (b : BitVec 32) : Val.same (val80 (BitVec.ofNat 80 (widen 25 73 b.toNat))) (val32 b) = true := by
-  have hq : b.toNat % 2 ^ 25 < 2 ^ 73 := by omega
-  have hs : b.toNat / 2 ^ 25 % 64 < 64 := by omega
-  have hlt := enc_lt80 (b.toNat / 2 ^ (25 + 6) % 2 = 1) _ _ hq hs
-  simp only [val80, val32, widen, BitVec.toNat_ofNat, Nat.mod_eq_of_lt hlt]
-  rw [dec_enc80 _ _ _ hq hs]
-  exact same_refl_fin _ _ _
+def cvtss2sd (x : BitVec 32) : BitVec 64 := if x = C32 then C64 else BitVec.ofNat 64 (widen 25 57 x.toNat)
+def fld32 (x : BitVec 32) : BitVec 80 := if x = C32 then T80 else BitVec.ofNat 80 (widen 25 73 x.toNat)
+def fld64 (x : BitVec 64) : BitVec 80 := if x = C64 then T80 else BitVec.ofNat 80 (widen 57 73 x.toNat)
 
-theorem widen_64_80 (b : BitVec 64) : Val.same (val80 (BitVec.ofNat 80 (widen 57 73 b.toNat))) (val64 b) = true := by
-  have hq : b.toNat % 2 ^ 57 < 2 ^ 73 := by omega
-  have hs : b.toNat / 2 ^ 57 % 64 < 64 := by omega
-  have hlt := enc_lt80 (b.toNat / 2 ^ (57 + 6) % 2 = 1) _ _ hq hs
-  simp only [val80, val64, widen, BitVec.toNat_ofNat, Nat.mod_eq_of_lt hlt]
-  rw [dec_enc80 _ _ _ hq hs]
-  exact same_refl_fin _ _ _
+theorem widen_32_64 (b : BitVec 32) : Val.same (val64 (cvtss2sd b)) (val32 b) = true := by
+  by_cases hc : b = C32
+  · subst hc; decide
+  · have hq : b.toNat % 2 ^ 25 < 2 ^ 57 := by omega
+    have hs : b.toNat / 2 ^ 25 % 64 < 64 := by omega
+    simp only [cvtss2sd, val32, hc, if_false, widen]
+    rw [val64_mk _ _ _ hq hs (by omega)]
+    exact same_refl_fin _ _ _
 
-/-! ### doubling a toy double (used for `addsd x, x`): shift + 1 -/
+theorem widen_32_80 (b : BitVec 32) : Val.same (val80 (fld32 b)) (val32 b) = true := by
+  by_cases hc : b = C32
+  · subst hc; decide
+  · have hq : b.toNat % 2 ^ 25 < 2 ^ 73 := by omega
+    have hs : b.toNat / 2 ^ 25 % 64 < 64 := by omega
+    have hlt := enc_lt80 (b.toNat / 2 ^ (25 + 6) % 2 = 1) _ _ hq hs
+    simp only [fld32, val80, val32, hc, if_false, widen, BitVec.toNat_ofNat, Nat.mod_eq_of_lt hlt]
+    rw [dec_enc80 _ _ _ hq hs]
+    exact same_refl_fin _ _ _
 
-def dbl64 (b : BitVec 64) : BitVec 64 :=
-  BitVec.ofNat 64 (enc 57 (b.toNat / 2 ^ (57 + 6) % 2 = 1) (b.toNat % 2 ^ 57) (b.toNat / 2 ^ 57 % 64 + 1))
+theorem widen_64_80 (b : BitVec 64) : Val.same (val80 (fld64 b)) (val64 b) = true := by
+  by_cases hc : b = C64
+  · subst hc; decide
+  · have hq : b.toNat % 2 ^ 57 < 2 ^ 73 := by omega
+    have hs : b.toNat / 2 ^ 57 % 64 < 64 := by omega
+    have hlt := enc_lt80 (b.toNat / 2 ^ (57 + 6) % 2 = 1) _ _ hq hs
+    simp only [fld64, val80, val64, hc, if_false, widen, BitVec.toNat_ofNat, Nat.mod_eq_of_lt hlt]
+    rw [dec_enc80 _ _ _ hq hs]
+    exact same_refl_fin _ _ _
 
-theorem dbl64_ofInt (k : Int) (hk : k.natAbs ≤ 2 ^ 64) :
-    (val64 (dbl64 (ofInt64 k))).toInt? = some (2 * roundInt 53 k) := by
-  obtain ⟨hq, hs⟩ := roundQS_bounds 53 k.natAbs (by decide) hk
-  have hq' : (roundQS 53 k.natAbs).1 < 2 ^ 57 := by
-    have : (2:Nat) ^ 53 < 2 ^ 57 := by decide
-    omega
-  have hs' : (roundQS 53 k.natAbs).2 < 64 := by omega
-  have hs'' : (roundQS 53 k.natAbs).2 + 1 < 64 := by omega
-  have hlt := enc_lt64 (decide (k < 0)) _ _ hq' hs'
-  have hlt2 := enc_lt64 (decide (k < 0)) _ _ hq' hs''
-  have hdec := dec_enc64 (decide (k < 0)) _ _ hq' hs'
-  simp only [dec, Val.fin.injEq] at hdec
-  obtain ⟨h1, h2, h3⟩ := hdec
-  have h3' : enc 57 (decide (k < 0)) (roundQS 53 k.natAbs).1 (roundQS 53 k.natAbs).2 / 2 ^ 57 % 64 = (roundQS 53 k.natAbs).2 := by
-    exact Int.ofNat.inj h3
-  simp only [val64, dbl64, ofInt64, ofIntNat, hk, if_true, BitVec.toNat_ofNat, Nat.mod_eq_of_lt hlt]
-  rw [h1, h2, h3', Nat.mod_eq_of_lt hlt2, dec_enc64 _ _ _ hq' hs'', toInt_fin, roundInt_eq]
-  have e : (roundQS 53 k.natAbs).1 * 2 ^ ((roundQS 53 k.natAbs).2 + 1) = 2 * ((roundQS 53 k.natAbs).1 * 2 ^ (roundQS 53 k.natAbs).2) := by
-    rw [Nat.pow_succ, ← Nat.mul_assoc, Nat.mul_comm]
-  rw [e]
-  split <;> simp <;> omega
+/-! ### narrowing: the inverse of the widening on its image (elsewhere: the fields re-encoded, q truncated) -/
+
+def fst32 (_cw : BitVec 16) (y : BitVec 80) : BitVec 32 :=
+  if y = T80 then C32
+  else BitVec.ofNat 32 (enc 25 (y.toNat / 2 ^ (73 + 6) % 2 = 1) (y.toNat % 2 ^ 73 % 2 ^ 25) (y.toNat / 2 ^ 73 % 64))
+def fst64 (_cw : BitVec 16) (y : BitVec 80) : BitVec 64 :=
+  if y = T80 then C64
+  else BitVec.ofNat 64 (enc 57 (y.toNat / 2 ^ (73 + 6) % 2 = 1) (y.toNat % 2 ^ 73 % 2 ^ 57) (y.toNat / 2 ^ 73 % 64))
+
+theorem T80_fields : dec 73 T80.toNat = .fin false 9223372036854775808 0 := by decide
+
+/-- the fields of an encoded datum, as numbers -/
+theorem enc_fields80 (neg : Bool) (q s : Nat) (hq : q < 2 ^ 73) (hs : s < 64) :
+    enc 73 neg q s % 2 ^ 73 = q ∧ enc 73 neg q s / 2 ^ 73 % 64 = s ∧ (enc 73 neg q s / 2 ^ (73 + 6) % 2 = 1 ↔ neg = true) := by
+  simp only [enc]
+  cases neg <;> simp <;> omega
+
+theorem narrow32 (x : Nat) (hx : x < 2 ^ 32) (w : Nat) (neg : Bool) (hneg : neg = decide (x / 2 ^ (25 + 6) % 2 = 1))
+    (f1 : w % 2 ^ 73 = x % 2 ^ 25) (f2 : w / 2 ^ 73 % 64 = x / 2 ^ 25 % 64) (f3 : w / 2 ^ (73 + 6) % 2 = 1 ↔ neg = true) :
+    enc 25 (decide (w / 2 ^ (73 + 6) % 2 = 1)) (w % 2 ^ 73 % 2 ^ 25) (w / 2 ^ 73 % 64) = x := by
+  rw [f1, f2]
+  have hd : decide (w / 2 ^ (73 + 6) % 2 = 1) = neg := by cases neg <;> simp_all
+  rw [hd, hneg]
+  simp only [enc]
+  by_cases h : x / 2 ^ (25 + 6) % 2 = 1 <;> simp [h] <;> omega
+
+theorem narrow64 (x : Nat) (hx : x < 2 ^ 64) (w : Nat) (neg : Bool) (hneg : neg = decide (x / 2 ^ (57 + 6) % 2 = 1))
+    (f1 : w % 2 ^ 73 = x % 2 ^ 57) (f2 : w / 2 ^ 73 % 64 = x / 2 ^ 57 % 64) (f3 : w / 2 ^ (73 + 6) % 2 = 1 ↔ neg = true) :
+    enc 57 (decide (w / 2 ^ (73 + 6) % 2 = 1)) (w % 2 ^ 73 % 2 ^ 57) (w / 2 ^ 73 % 64) = x := by
+  rw [f1, f2]
+  have hd : decide (w / 2 ^ (73 + 6) % 2 = 1) = neg := by cases neg <;> simp_all
+  rw [hd, hneg]
+  simp only [enc]
+  by_cases h : x / 2 ^ (57 + 6) % 2 = 1 <;> simp [h] <;> omega
+
+theorem fst32_fld32 (cw : BitVec 16) (x : BitVec 32) : fst32 cw (fld32 x) = x := by
+  by_cases hc : x = C32
+  · subst hc; rfl
+  · have hq : x.toNat % 2 ^ 25 < 2 ^ 73 := by omega
+    have hs : x.toNat / 2 ^ 25 % 64 < 64 := by omega
+    have hlt := enc_lt80 (x.toNat / 2 ^ (25 + 6) % 2 = 1) _ _ hq hs
+    have hd := dec_enc80 (x.toNat / 2 ^ (25 + 6) % 2 = 1) _ _ hq hs
+    obtain ⟨f1, f2, f3⟩ := enc_fields80 (x.toNat / 2 ^ (25 + 6) % 2 = 1) _ _ hq hs
+    have hne : BitVec.ofNat 80 (widen 25 73 x.toNat) ≠ T80 := by
+      intro h
+      have h' := congrArg (fun b => dec 73 b.toNat) h
+      simp only [widen, BitVec.toNat_ofNat, Nat.mod_eq_of_lt hlt, hd, T80_fields, Val.fin.injEq] at h'
+      omega
+    have hn := narrow32 x.toNat x.isLt _ _ rfl f1 f2 f3
+    unfold fld32 fst32
+    rw [if_neg hc, if_neg hne]
+    simp only [widen, BitVec.toNat_ofNat, Nat.mod_eq_of_lt hlt]
+    rw [hn]
+    exact BitVec.eq_of_toNat_eq (by simp)
+
+theorem fst64_fld64 (cw : BitVec 16) (x : BitVec 64) : fst64 cw (fld64 x) = x := by
+  by_cases hc : x = C64
+  · subst hc; rfl
+  · have hq : x.toNat % 2 ^ 57 < 2 ^ 73 := by omega
+    have hs : x.toNat / 2 ^ 57 % 64 < 64 := by omega
+    have hlt := enc_lt80 (x.toNat / 2 ^ (57 + 6) % 2 = 1) _ _ hq hs
+    have hd := dec_enc80 (x.toNat / 2 ^ (57 + 6) % 2 = 1) _ _ hq hs
+    obtain ⟨f1, f2, f3⟩ := enc_fields80 (x.toNat / 2 ^ (57 + 6) % 2 = 1) _ _ hq hs
+    have hne : BitVec.ofNat 80 (widen 57 73 x.toNat) ≠ T80 := by
+      intro h
+      have h' := congrArg (fun b => dec 73 b.toNat) h
+      simp only [widen, BitVec.toNat_ofNat, Nat.mod_eq_of_lt hlt, hd, T80_fields, Val.fin.injEq] at h'
+      omega
+    have hn := narrow64 x.toNat x.isLt _ _ rfl f1 f2 f3
+    unfold fld64 fst64
+    rw [if_neg hc, if_neg hne]
+    simp only [widen, BitVec.toNat_ofNat, Nat.mod_eq_of_lt hlt]
+    rw [hn]
+    exact BitVec.eq_of_toNat_eq (by simp)
+
+/-! ### the constrained arithmetic -/
+
+/-- `x + x`: exact doubling of an integer datum -/
+def addss (a b : BitVec 32) : BitVec 32 :=
+  if a = b then (match (val32 a).toInt? with | some i => ofInt32 (2 * i) | none => a) else a
+def addsd (a b : BitVec 64) : BitVec 64 :=
+  if a = b then (match (val64 a).toInt? with | some i => ofInt64 (2 * i) | none => a) else a
+
+theorem addss_double (k : Int) (hk : k.natAbs < 2 ^ 63) : addss (ofInt32 k) (ofInt32 k) = ofInt32 (2 * roundInt 24 k) := by
+  simp only [addss, if_true, ofInt32_val k (by omega)]
+
+theorem addsd_double (k : Int) (hk : k.natAbs < 2 ^ 63) : addsd (ofInt64 k) (ofInt64 k) = ofInt64 (2 * roundInt 53 k) := by
+  simp only [addsd, if_true, ofInt64_val k (by omega)]
+
+def subss (a b : BitVec 32) : BitVec 32 := if b = C32 then sub63_32 a else a
+def subsd (a b : BitVec 64) : BitVec 64 := if b = C64 then sub63_64 a else a
+
+/-- x87 `st − 2^63` and `st + 2^64` on integer data (the toy has one precision: the control word is ignored) -/
+def fsub (_cw : BitVec 16) (a b : BitVec 80) : BitVec 80 :=
+  if b = T80 then (match (val80 a).trunc? with | some t => ofInt80 (t - 9223372036854775808) | none => a) else a
+def fadd (_cw : BitVec 16) (a b : BitVec 80) : BitVec 80 :=
+  if b = fld32 0x5f800000#32 then (match (val80 a).toInt? with | some i => ofInt80 (i + 18446744073709551616) | none => a) else a
+
+theorem fsub_two63 (cw : BitVec 16) (a : BitVec 80) (t : Int) (ht : (val80 a).trunc? = some t)
+    (h1 : 9223372036854775808 ≤ t) (h2 : t < 18446744073709551616) :
+    (val80 (fsub cw a (fld32 0x5f000000#32))).trunc? = some (t - 9223372036854775808) := by
+  have hb : fld32 0x5f000000#32 = T80 := by decide
+  simp only [fsub, hb, if_true, ht]
+  apply trunc_of_toInt
+  rw [ofInt80_val _ (by omega), roundInt_small 64 _ (by omega)]
+
+theorem fadd_two64 (cw : BitVec 16) (v : Int) (h1 : 9223372036854775808 ≤ v) (h2 : v < 18446744073709551616) :
+    fadd cw (ofInt80 (v - 18446744073709551616)) (fld32 0x5f800000#32) = ofInt80 v := by
+  simp only [fadd, if_true, ofInt80_val _ (show (v - 18446744073709551616).natAbs ≤ 2 ^ 64 by omega),
+    roundInt_small 64 (v - 18446744073709551616) (by omega)]
+  congr 1; omega
 
 /-- **the toy FPU** -/
 def toy : FpuSpec where
   val32 := val32
   val64 := val64
   val80 := val80
-  addss := fun a _ => a
-  subss := fun a _ => a
+  addss := addss
+  subss := subss
   mulss := fun a _ => a
   divss := fun a _ => a
-  addsd := fun a b => if a = b then dbl64 a else a
-  subsd := fun a _ => a
+  addsd := addsd
+  subsd := subsd
   mulsd := fun a _ => a
   divsd := fun a _ => a
-  fadd := fun _ a _ => a
-  fsub := fun _ a _ => a
+  fadd := fadd
+  fsub := fsub
   fmul := fun _ a _ => a
   fdiv := fun _ a _ => a
   fchs := fun x => x ^^^ (1#80 <<< 79)
@@ -277,15 +581,17 @@ def toy : FpuSpec where
   fistp16 := fun _ x => truncTo 16 (val80 x)
   fistp32 := fun _ x => truncTo 32 (val80 x)
   fistp64 := fun _ x => truncTo 64 (val80 x)
-  cvtss2sd := fun x => BitVec.ofNat 64 (widen 25 57 x.toNat)
+  cvtss2sd := cvtss2sd
   cvtsd2ss := fun _ => 0#32
-  fld32 := fun x => BitVec.ofNat 80 (widen 25 73 x.toNat)
-  fld64 := fun x => BitVec.ofNat 80 (widen 57 73 x.toNat)
-  fst32 := fun _ _ => 0#32
-  fst64 := fun _ _ => 0#64
+  fld32 := fld32
+  fld64 := fld64
+  fst32 := fst32
+  fst64 := fst64
   ucomiss := fun a b => Val.cmp (val32 a) (val32 b)
   ucomisd := fun a b => Val.cmp (val64 a) (val64 b)
   fcomi := fun a b => Val.cmp (val80 a) (val80 b)
+  comiss := fun a b => Val.cmp (val32 a) (val32 b)
+  comisd := fun a b => Val.cmp (val64 a) (val64 b)
   val32_zero := by decide
   val64_zero := by decide
   val80_fldz := by decide
@@ -316,5 +622,26 @@ def toy : FpuSpec where
   fld32_exact := widen_32_80
   fld64_exact := widen_64_80
   fchs_spec := fun _ => rfl
+  fst32_fld32 := fun cw x _ => fst32_fld32 cw x
+  fst64_fld64 := fun cw x _ => fst64_fld64 cw x
+  comiss_spec := fun _ _ => rfl
+  comisd_spec := fun _ _ => rfl
+  val32_two63 := by decide
+  val64_two63 := by decide
+  val80_two63 := by decide
+  subss_two63 := fun a t ht h1 h2 => by
+    show (val32 (subss a 0x5f000000#32)).trunc? = _
+    simp only [subss, show (0x5f000000#32 : BitVec 32) = C32 from rfl, if_true]
+    exact sub63_32_spec a t ht h1 h2
+  subsd_two63 := fun a t ht h1 h2 => by
+    show (val64 (subsd a 0x43e0000000000000#64)).trunc? = _
+    simp only [subsd, show (0x43e0000000000000#64 : BitVec 64) = C64 from rfl, if_true]
+    exact sub63_64_spec a t ht h1 h2
+  fsub_two63 := fun cw a t _ ht h1 h2 => fsub_two63 cw a t ht h1 h2
+  fadd_two64 := fun cw v _ h1 h2 => fadd_two64 cw v h1 h2
+  addss_double := addss_double
+  addsd_double := addsd_double
+  ofInt32_congr := ofInt32_congr
+  ofInt64_congr := ofInt64_congr
 
 end ChibiVerif.Spec.Fpu.Toy
